@@ -381,7 +381,7 @@ class RegexPatternProvider(MorphingProvider):
 
             try:
                 return re_compile(data, flags)
-            except re.error as e:
+            except (re.error, OverflowError) as e:  # 'a{99999999999999999999}' raises OverflowError
                 raise ValueLoadError(str(e), data)
 
         return regex_loader
@@ -538,7 +538,7 @@ def decimal_lax_coercion_loader(data):
         raise ValueLoadError("Bad string format", data)
     except TypeError:
         raise TypeLoadError(Union[str, Decimal], data)
-    except ValueError as e:
+    except (ValueError, OverflowError) as e:  # (0, (1,), 10**30) raises OverflowError
         raise ValueLoadError(str(e), data)
 
 
